@@ -251,19 +251,22 @@ Running == -2
 \* ---- inputs of task "uniq":
 \*   mods : Seq([hash, table : Seq([key, off]), first, num])   hash 1, 2 are registered library hash names
 \*   q    : [kind : "short" | "full", len : 0..3 (short only), hash : 0..2 (0 = not registered), key]
-SortedKeySeqs(n) == {s \in [1..n -> 0..MaxKey] : \A i, j \in 1..n : i < j => s[i] < s[j]}
+SortedSeqOf(S) == [i \in 1..Cardinality(S) |-> CHOOSE x \in S : Cardinality({y \in S : y < x}) = i - 1]
 TableOf(ks, perm) == [i \in 1..Len(ks) |-> [key |-> ks[i], off |-> IF perm = "id" THEN i - 1 ELSE Len(ks) - i]]
 OtherTable == <<[key |-> 2, off |-> 0], [key |-> 5, off |-> 1]>>
-UniqInputs ==
-  LET Qs == [kind : {"short"}, len : 0..3, hash : {1}, key : {0}]
-            \cup [kind : {"full"}, len : {4}, hash : {0}, key : {3}]
-            \cup [kind : {"full"}, len : {4}, hash : {1}, key : 0..(MaxKey + 1)]
-  IN UNION {
-       {[mods |-> IF layout = "alone" THEN <<[hash |-> 1, table |-> TableOf(ks, perm), first |-> 1, num |-> MaxKey + 1]>>
-                  ELSE <<[hash |-> 2, table |-> OtherTable, first |-> 1, num |-> 2],
-                         [hash |-> 1, table |-> TableOf(ks, perm), first |-> 3, num |-> MaxKey + 1]>>,
-         q |-> q] : q \in Qs, perm \in {"id", "rev"}, layout \in {"alone", "second"}}
-       : ks \in UNION {SortedKeySeqs(n) : n \in 0..MaxN}}
+UniqMods(ks, perm, layout) ==
+  IF layout = "alone" THEN <<[hash |-> 1, table |-> TableOf(ks, perm), first |-> 1, num |-> MaxKey + 1]>>
+  ELSE <<[hash |-> 2, table |-> OtherTable, first |-> 1, num |-> 2],
+         [hash |-> 1, table |-> TableOf(ks, perm), first |-> 3, num |-> MaxKey + 1]>>
+\* (nested quantifiers, not one big set: TLC builds big unions quadratically)
+UniqInit ==
+  \E S \in SUBSET (0..MaxKey) : Cardinality(S) <= MaxN /\
+  \E perm \in {"id", "rev"}, layout \in {"alone", "second"} :
+    \/ \E len \in 0..3 : inp = [mods |-> UniqMods(SortedSeqOf(S), perm, layout),
+                                  q |-> [kind |-> "short", len |-> len, hash |-> 1, key |-> 0]]
+    \/ inp = [mods |-> UniqMods(SortedSeqOf(S), perm, layout), q |-> [kind |-> "full", len |-> 4, hash |-> 0, key |-> 3]]
+    \/ \E key \in 0..(MaxKey + 1) : inp = [mods |-> UniqMods(SortedSeqOf(S), perm, layout),
+                                             q |-> [kind |-> "full", len |-> 4, hash |-> 1, key |-> key]]
 
 \* request_module: _modules_by_hash[library_hash_name] = def, only when the table is not empty
 ByHash(mods, h) == {j \in 1..Len(mods) : mods[j].hash = h /\ Len(mods[j].table) > 0}
@@ -288,17 +291,19 @@ Place(shapes, from, j) ==
              fp |-> [o \in 1..nf |-> IF sh.nfk = "short" /\ o = 1 THEN 0 ELSE 4096 + 256 * j + o]]>>
           \o Place(Tail(shapes), first + sh.size, j + 1)
 LastNext(mods) == IF mods = <<>> THEN 1 ELSE mods[Len(mods)].next
-FptrInputs ==
-  UNION { LET mods == Place(shapes, 1, 1) IN
-          {[mods |-> mods, shapes |-> shapes, w |-> w] : w \in (-2..(LastNext(mods) + 2)) \cup {IntMin, IntMax}}
-          : shapes \in UNION {[1..n -> ModShapes] : n \in 0..MaxMods} }
+FptrInit ==
+  \E n \in 0..MaxMods : \E shapes \in [1..n -> ModShapes] :
+    LET mods == Place(shapes, 1, 1) IN
+    \E w \in (-2..(LastNext(mods) + 2)) \cup {IntMin, IntMax} : inp = [mods |-> mods, shapes |-> shapes, w |-> w]
 
 \* ---- inputs of task "db": a scenario [name, files : Seq(bytes)]; see IdbQueryMC
 CONSTANT DbInputs
 
 Init ==
   /\ task \in Tasks
-  /\ inp \in CASE task = "uniq" -> UniqInputs [] task = "fptr" -> FptrInputs [] task = "db" -> DbInputs
+  /\ \/ task = "uniq" /\ UniqInit
+     \/ task = "fptr" /\ FptrInit
+     \/ task = "db" /\ inp \in DbInputs
   /\ pc = "start" /\ lo = 0 /\ hi = 0 /\ steps = 0 /\ res = Running
 
 Return(v) == pc' = "done" /\ res' = v /\ UNCHANGED <<lo, hi>>
